@@ -37,3 +37,9 @@ pub fn lower_to_hir_files_with_env(id: PackageId, files: SourceFiles, deps: &Ifa
 pub fn check_file_with_env(hir: Hir, table: HirTable, genv: GlobalTypeEnv, package: &str, deps: EnvMap) -> (r: (TastFile, GlobalTypeEnv, Diagnostics))
     ensures r.2.errors() == typer_errors(hir, table, package@, deps),
 { unimplemented!() }
+// ---- the whole-program twin: pipeline::typecheck_package ----
+pub struct PackageUnit { pub name: String, pub files: SourceFiles }                       // packages::PackageUnit: the two fields read
+impl VClone for SourceFiles { #[verifier::external_body] fn vclone(&self) -> (r: Self) { unimplemented!() } }
+pub struct PkgInterface { pub exports: PackageExports, pub hir_interface: PackageInterface }    // pipeline::PackageInterface
+pub struct PackageArtifact { pub tast: TastFile, pub interface: PkgInterface, pub diagnostics: Diagnostics }
+#[verifier::external_body] pub fn string_as_str(s: &String) -> (r: &str) ensures r@ == s@ { unimplemented!() }
